@@ -83,7 +83,7 @@ def build(cls, case, fem):
     def make_items(fcx, statevars=None):
         if cls == "linear" or plain2d:
             um = fem.LinearElastic(E=2 * mu * 1.3, nu=0.3) if dim == 3 else fem.constitution.LinearElasticPlaneStrain(E=2 * mu * 1.3, nu=0.3)
-            body = fem.SolidBody(um, fcx)
+            body = fem.SolidBody(um, fcx, multiplier=(None, 2.5, 1.0, 0.4)[case["pseed"] % 4])
         elif cls == "mixed":
             body = fem.SolidBody(fem.ThreeFieldVariation(fem.NeoHooke(mu=mu, bulk=bulk)), fcx)
         elif cls == "condensed":
@@ -93,7 +93,9 @@ def build(cls, case, fem):
         elif cls == "history-plastic":
             body = fem.SolidBody(fem.LinearElasticPlasticIsotropicHardening(E=100.0, nu=0.3, sy=1.0, K=10.0), fcx, statevars=statevars)
         else:
-            body = fem.SolidBody(fem.NeoHooke(mu=mu, bulk=bulk), fcx)
+            # the documented multiplier of an item scales its vector and matrix alike (None / 1 in half of the cases)
+            mult = (None, 2.5, 1.0, 0.4)[case["pseed"] % 4] if cls in ("nonlinear", "loads") else None
+            body = fem.SolidBody(fem.NeoHooke(mu=mu, bulk=bulk), fcx, multiplier=mult)
         items = [body]
         if cls == "loads":
             rng = np.random.default_rng(case["pseed"])
@@ -128,7 +130,13 @@ def build(cls, case, fem):
     nc = min(case["ncomp"], f0.dim)
     scale = 0.01 if cls == "history-plastic" else (0.3 if cls in ("mixed", "condensed") else 1.0)
     vals = [scale * case["move"][k] * (float(np.ptp(X[:, 0]))) for k in range(nc)]
-    if case["arrayvalue"] and nc >= 2:
+    pointwise = None
+    if case["arrayvalue"] and nc >= 2 and case["pseed"] % 3 == 0:
+        # one boundary with one value per (selected point, component): a Fortran-ordered 2-d array (e.g. np.array([ux, uy]).T)
+        skip = [0] * nc + [1] * (f0.dim - nc)
+        pointwise = np.asfortranarray(np.array(vals)[None, :] * (1.0 + 0.2 * np.arange(len(right_pts))[:, None] / max(len(right_pts), 1)))
+        bounds["right"] = fem.Boundary(f0, fx=float(X[:, 0].max()), skip=tuple(skip), value=pointwise)
+    elif case["arrayvalue"] and nc >= 2:
         # one boundary with a per-component array value (one entry per non-skipped component)
         skip = [0] * nc + [1] * (f0.dim - nc)
         bounds["right"] = fem.Boundary(f0, fx=float(X[:, 0].max()), skip=tuple(skip), value=np.array(vals))
@@ -140,9 +148,9 @@ def build(cls, case, fem):
             if case["arrayvalue"] and k == 0:
                 val = np.full(len(right_pts), val)
             bounds[f"right-{k}"] = fem.Boundary(f0, fx=float(X[:, 0].max()), skip=tuple(skip), value=val)
-    for p in right_pts:
+    for a_, p in enumerate(right_pts):
         for k in range(nc):
-            expected[(int(p), k)] = vals[k]
+            expected[(int(p), k)] = vals[k] if pointwise is None else float(pointwise[a_, k])
     if cls != "axisymmetric":
         for a in range(1, f0.dim):
             if case["sym"][a]:
@@ -154,6 +162,16 @@ def build(cls, case, fem):
                     if expected[(int(p), a)] != 0.0:
                         expected[(int(p), a)] = None  # overlapping boundaries with different values: either is admissible
     return mesh, info, fc, bounds, make_items, X, expected
+
+
+def residual(items, x):
+    """sum of the items' vectors times their multipliers, written without felupe's own fun_items."""
+    f = np.zeros(int(sum(x.fieldsizes)))
+    for it in items:
+        v = np.asarray(it.assemble.vector(field=x).toarray(), float).ravel()
+        m = it.assemble.multiplier
+        f[: v.size] += v if m is None else m * v
+    return f
 
 
 def reaction_norms(f, dof1, dof0):
@@ -194,6 +212,9 @@ def check(cls, case, rec):
     except ValueError as e:
         rec.label("raised")
         rec.nontrivial = True
+        if (cls == "linear" or (info["dim"] == 2 and cls == "nonlinear")) and maxiter >= 3 and tol >= 1e-10:
+            # a linear problem is solved by the first update (whatever the start state and the item multiplier)
+            rec.require("linear-problem-converges", False, {"maxiter": maxiter, "tol": tol, "start": case["start"]})
         if has_state:
             rec.require("no-commit-on-failure", np.array_equal(np.asarray(body.results.statevars), pre_state))
         return
@@ -217,9 +238,10 @@ def check(cls, case, rec):
     # residual re-assembled by fresh items on a deep copy of the result
     xc = copy.deepcopy(res.x)
     fresh = make_items(xc, statevars=None if pre_state is None else pre_state.copy())
-    f = np.asarray(fun_items(fresh, xc), float)
+    f = residual(fresh, xc)
     if cls == "condensed":
-        f = np.asarray(fun_items(fresh, xc), float)  # settle
+        f = residual(fresh, xc)  # settle
+    rec.close("fun_items=sum-of-item-vectors", float(np.abs(np.asarray(fun_items(fresh, xc), float).ravel() - f).max()) / max(float(np.abs(f).max()), 1e-12), 1e-12)
     n1, n0 = reaction_norms(f, dof1, dof0)
     fn = n1 / (1e-3 + n0)
     bound = tol * (1 + 1e-6) + 1e-12
